@@ -90,9 +90,28 @@ structure InvT (s : St) : Prop where
   sortedW : SortedW s.t.inorder
   sortedS : s.multi = false → SortedS s.t.inorder
   size : s.size = s.t.size
+  olen : s.order.length = s.size
 
 theorem invT_init (m : Bool) : InvT (St.init m) :=
-  ⟨trivial, List.Pairwise.nil, fun _ => List.Pairwise.nil, rfl⟩
+  ⟨trivial, List.Pairwise.nil, fun _ => List.Pairwise.nil, rfl, rfl⟩
+
+theorem insertBefore_length (p x : Nat) (l : List Nat) : (insertBefore p x l).length = l.length + 1 := by
+  induction l with
+  | nil => rfl
+  | cons a as ih => simp only [insertBefore]; split <;> simp [ih]
+
+theorem insertAfter_length (p x : Nat) (l : List Nat) : (insertAfter p x l).length = l.length + 1 := by
+  induction l with
+  | nil => rfl
+  | cons a as ih => simp only [insertAfter]; split <;> simp [ih]
+
+theorem threadIn_length (l : List Nat) (x : Nat) (c : Option (Nat × Bool)) :
+    (threadIn l x c).length = l.length + 1 := by
+  unfold threadIn
+  split
+  · simp
+  · exact insertAfter_length _ _ _
+  · exact insertBefore_length _ _ _
 
 /-- growth of the in-order sequence by an insert, read off the landing of the descent -/
 theorem ins_length (id k v) (c : Option (Nat × Bool)) (t : Tree) :
@@ -143,42 +162,48 @@ theorem insertRoot_t (s : St) (k v : Int) (c0 : Nat) :
     ∃ id, (s.insertRoot k v c0).1.t = (s.insSub id k v s.t).1 ∧
       (s.insertRoot k v c0).1.multi = s.multi ∧
       (s.insertRoot k v c0).1.size = s.size +
+        (match (if s.multi then landM k none s.t else land k none s.t) with | .found _ => 0 | .leaf _ => 1) ∧
+      (s.insertRoot k v c0).1.order.length = s.order.length +
         (match (if s.multi then landM k none s.t else land k none s.t) with | .found _ => 0 | .leaf _ => 1) := by
   unfold St.insertRoot St.insertIn
   obtain ⟨a1, a2, a3, a4⟩ := alloc_fields s
   generalize (if s.multi then landM k none s.t else land k none s.t) = ld
   cases ld with
-  | found i => exact ⟨0, rfl, rfl, rfl⟩
-  | leaf p => exact ⟨s.alloc.1, rfl, a1, rfl⟩
+  | found i => exact ⟨0, rfl, rfl, rfl, rfl⟩
+  | leaf p => exact ⟨s.alloc.1, rfl, a1, rfl, threadIn_length _ _ _⟩
 
 theorem insertRoot_invT (s : St) (hI : InvT s) (k v : Int) (c0 : Nat) : InvT (s.insertRoot k v c0).1 := by
-  obtain ⟨id, ht, hm, hsz⟩ := insertRoot_t s k v c0
+  obtain ⟨id, ht, hm, hsz, hol⟩ := insertRoot_t s k v c0
   cases hmul : s.multi with
   | false =>
     have hS := hI.sortedS hmul
     simp only [St.insSub, hmul, Bool.false_eq_true, if_false] at ht hsz
     have hin := ins_inorder id k v s.t hS
     have hsrt := insList_sorted id k v _ hS
-    refine ⟨?_, ?_, ?_, ?_⟩
+    simp only [hmul, Bool.false_eq_true, if_false] at hol
+    refine ⟨?_, ?_, ?_, ?_, ?_⟩
     · rw [ht]; exact (ins_ok id k v s.t hI.avl).1
     · rw [ht, hin]; exact hsrt.toW
     · intro _; rw [ht, hin]; exact hsrt
     · rw [hsz, ht, size_eq_length, ins_length id k v none, hI.size, size_eq_length]
+    · rw [hol, hsz, hI.olen]
   | true =>
     simp only [St.insSub, hmul, if_true] at ht hsz
     have hin := insM_inorder id k v s.t hI.sortedW
     have hsrt := insListM_sorted id k v _ hI.sortedW
     obtain ⟨p, hp⟩ := landM_leaf k none s.t
-    refine ⟨?_, ?_, ?_, ?_⟩
+    simp only [hmul, if_true] at hol
+    refine ⟨?_, ?_, ?_, ?_, ?_⟩
     · rw [ht]; exact (insM_ok id k v s.t hI.avl).1
     · rw [ht, hin]; exact hsrt
     · intro h; rw [hm, hmul] at h; exact absurd h (by simp)
     · rw [hsz, hp, ht, size_eq_length, insM_length, hI.size, size_eq_length]
+    · rw [hol, hsz, hI.olen]
 
 theorem insertRoot_abs (s : St) (hI : InvT s) (k v : Int) (c0 : Nat) :
     abs (s.insertRoot k v c0).1 =
       (if s.multi then Spec.insertMulti k v (abs s) else Spec.insertMap k v (abs s)) := by
-  obtain ⟨id, ht, hm, hsz⟩ := insertRoot_t s k v c0
+  obtain ⟨id, ht, hm, hsz, _⟩ := insertRoot_t s k v c0
   unfold abs
   cases hmul : s.multi with
   | false =>
